@@ -6,7 +6,8 @@ RULE = ("pairs of stretching instances at registration and login from {absent, e
         "default-size-reduced, another cost, and instances that differ in algorithm (i/d/id), version (0x10/0x13) or secret key only} x fail-always; oracle: equal instances log in, different ones fail with "
         "InvalidLogin, absent == explicit default, exactly one call per finish step whose argument is the OPRF output (the model's "
         "prediction of the call log is compared byte for byte), a failing function surfaces as KsfError. Argon2 is an oracle: the "
-        "crate's logged (input, output) pairs are replayed by the model as a finite table. distinct = distinct (suite, op, args)")
+        "crate's logged (input, output) pairs are replayed by the model as a finite table. Three extra suites whose DEFAULT "
+        "function is a zero-sized non-identity type: absent == explicit default == the model's explicit instance, byte for byte. distinct = distinct (suite, op, args)")
 ASSUMPTIONS = ["Argon2 itself is not modelled (table replay); 'bound' holds up to explicit collision events (Bad)"]
 
 INST = ["~", "D", "R", "X5a", "A8,1,1", "A16,2,1"]
@@ -69,8 +70,34 @@ def failing(ctx):
     ctx.expect(not r.ok and r.err.startswith("Lib:KsfError"), "in-memory flow stops with KsfError")
 
 
+def zero_sized_default(ctx, k1, k2):
+    """suites whose default stretching function is a zero-sized type that is NOT the identity (it reverses): absent and
+    explicit default are the same function, it is called exactly once per finish step, on the OPRF output, and its
+    result - not the raw OPRF output - goes into the randomized password (the model is asked with the explicit
+    instance `R` on the base suite: bytes and call log must agree)"""
+    ctx.nontrivial = True
+    L = ctx.L
+    f = honest_flow(ctx, b"pw", b"alice", None, None, None, k1, stop_on_error=False, count=True, login_ksf=k2)
+    ctx.expect(f.ok, "registration under %s and login under %s succeed (%s at %s)" % (k1, k2, f.error, f.failed_at))
+    for nm, lg in (("registration", f.ksflog_reg), ("login", getattr(f, "ksflog_login", None))):
+        if lg is None:
+            continue
+        items = lg.split(",")
+        ctx.expect(len(items) == 1 and ":" in items[0], "exactly one stretching call at %s finish (%s)" % (nm, lg[:40]))
+        if len(items) == 1 and ":" in items[0]:
+            i, o = items[0].split(":")
+            ctx.expect(len(i) == 2 * L.Nh and o == bytes.fromhex(i)[::-1].hex(), "the suite's default function was applied to the OPRF output at %s" % nm)
+    # in memory as well
+    t = flow_tape(ctx)
+    r = ctx.call("flow", 0, "none", t, b"pw", b"u", None, None, None, k1, model_args=[t, b"pw", b"u", None, None, None, k1])
+    ctx.expect(r.ok, "in-memory flow under the default instance")
+
+
 def cases(tier, seed):
     out = []
+    for zi, zs in enumerate(Z_SUITES):
+        for j, (a, b) in enumerate((("~", "~"), ("~", "D"), ("D", "~"), ("D", "D"))):
+            out.append(dict(script=zero_sized_default, suite=zs, seed=seed * 100000 + 90000 + zi * 10 + j, mode="raw", params=dict(k1=a, k2=b)))
     for si, s in enumerate(suites_for(tier, seed)):
         k = 0
         for a in INST:
